@@ -20,7 +20,8 @@ pub fn run_cand(run: &mut Run, s: &str, nt: bool) {
         Ok(c) => {
             let _ = c.to_sdp();                                     // re-serialising must be total
             let tt = match c.tcp_type { None => 0, Some(x) => match format!("{x:?}").as_str() { "Active" => 1, "Passive" => 2, _ => 3 } };
-            format!("ok {},{},{},{},{},{}", c.component, c.priority, c.address.port(), typ_code(&c), tt, (c.transport == "tcp") as u8)
+            format!("ok {},{},{},{},{},{},{}", c.component, c.priority, c.address.port(), typ_code(&c), tt, (c.transport == "tcp") as u8,
+                c.related_address.map_or(0, |a| a.port() as u64 + 1))
         }
         Err(_) => "err e".into(),
     });
@@ -46,7 +47,8 @@ fn gen_cand(rng: &mut Rng) -> String {
         match rng.below(5) {
             0 => { parts.push("tcptype".into()); parts.push(rng.pick(&["active", "passive", "so", "xx"]).to_string()); }
             1 => parts.push("tcptype".into()),
-            2 => { parts.push("raddr".into()); parts.push("1.2.3.4".into()); }
+            2 => { parts.push("raddr".into()); parts.push(rng.pick(&["1.2.3.4", "10.0.0.256", "x", "0.0.0.0"]).to_string());
+                   if rng.chance(4, 5) { parts.push("rport".into()); parts.push(rng.pick(&["0", "9", "65535", "65536", "+7", "x", ""]).to_string()); } }
             3 => { parts.push("generation".into()); parts.push("0".into()); }
             _ => parts.push("x".into()),
         }
